@@ -157,6 +157,7 @@ fn sweep_starts(tier: Tier) -> Vec<Start> {
                     forest: vec![A::doc(f.clone()), A::el("", "e").child(A::text("u"))],
                     adjacent_text: false,
                     consolidation,
+                    parse: vec![],
                 });
             }
         }
